@@ -103,7 +103,7 @@ def meta_int_keys(m):
     """undo the str() of dict keys done for JSON"""
     out = dict(m)
     for k in ("surface_constants", "universes", "fills", "imps", "vols", "material_zaids", "material_laws",
-              "surface_interpolated", "tr_rotation_entries"):
+              "surface_interpolated", "tr_rotation_entries", "tr_flag"):
         if k in out and isinstance(out[k], dict):
             out[k] = {int(a): b for a, b in out[k].items()}
     return out
@@ -418,7 +418,10 @@ class Ref:
         elif k == "title":
             D["title"] = e["value"]
         elif k == "fraction":
-            self.mats[e["orig"]]["pairs"][e["index"]][1] = Fraction(e["value"])
+            # the API takes the magnitude; a material given in mass fractions (negative values) stays one
+            pairs = self.mats[e["orig"]]["pairs"]
+            mass = any(p[1] < 0 for p in pairs)
+            pairs[e["index"]][1] = -Fraction(e["value"]) if mass else Fraction(e["value"])
         elif k == "tr_displacement":
             self.trs[e["orig"]]["values"][e["index"]] = Fraction(e["value"])
         elif k == "material_assign":
@@ -430,7 +433,10 @@ class Ref:
         elif k == "lattice":
             self.cells[e["orig"]]["lat"] = Fraction(e["value"])
         elif k == "boundary":
-            self.surfaces[e["orig"]]["modifier"] = {"reflecting": "*", "white": "+", "none": ""}[e["value"]]
+            if e.get("how") != "noop":
+                self.surfaces[e["orig"]]["modifier"] = {"reflecting": "*", "white": "+", "none": ""}[e["value"]]
+        elif k == "tr_main_to_aux":
+            self.trs[e["orig"]]["values"][12] = Fraction(1 if e["value"] else -1)
         elif k == "thermal_law":
             self.mts[e["orig"]]["laws"] = [x.upper() for x in e["laws"]]
         elif k == "tr_degrees":
@@ -438,7 +444,10 @@ class Ref:
         elif k == "tr_rotation":
             t = self.trs[e["orig"]]
             old_n = max(0, min(9, len(t["values"]) - 3))
-            t["values"] = t["values"][:3] + [Fraction(x) for x in e["matrix"]] + t["values"][3 + old_n:]
+            # a matrix of fewer than 9 entries cannot be followed by the direction flag (it would be read as an entry of
+            # the matrix); such an edit is only applied to a transform whose flag is +1, which need not be written
+            tail = t["values"][3 + old_n:] if len(e["matrix"]) == 9 else []
+            t["values"] = t["values"][:3] + [Fraction(x) for x in e["matrix"]] + tail
         elif k == "data_append":
             toks = spec.tokens(e["text"])
             D["data"].append({"kind": "OTHER", "name": toks[0], "values": spec.expand_shortcuts(toks[1:])})
@@ -551,7 +560,7 @@ _OWN = {"cell_number": "cell", "density": "cell", "importance": "cell", "volume"
         "surface_transform": "surface",
         "material_number": "material", "fraction": "material", "thermal_law": "material",
         "transform_number": "transform", "tr_displacement": "transform", "tr_degrees": "transform",
-        "tr_rotation": "transform"}
+        "tr_rotation": "transform", "tr_main_to_aux": "transform"}
 
 
 def touched_cards(bu, applied, exps=None):
